@@ -117,9 +117,19 @@ RCPTS = [
     (b'RCPT TO:<alice@example.org>', 'ok'), (b'RCPT TO:<Carol@Example.ORG>', 'ok'), (b'RCPT TO:<dave@example.org>', 'refused-listed'),
     (b'RCPT TO:<bob@example.org>', 'nouser'), (b'RCPT TO:<erin@example.org>', 'ok'), (b'RCPT TO:<alice@[192.0.2.1]>', 'literal'),
     (b'RCPT TO:<x@remote.example>', 'remote'), (b'rcpt to:<ALICE@EXAMPLE.ORG>', 'ok'), (b'RCPT TO:<postmaster>', 'ok'),
+    # source routes are accepted and ignored: the address behind the colon is the recipient
+    (b'RCPT TO:<@Relay1.Example.COM,@relay2.example.com:Carol@Example.ORG>', 'route'), (b'RCPT TO:<@r.example:ERIN@example.org>', 'route'),
 ]
 SENDERS = [b'MAIL FROM:<s@remote.example>', b'MAIL FROM:<S.T@Remote.Example>', b'MAIL FROM:<>', b'mail from:<s@remote.example>',
            b'MAIL FROM:<s@remote.example> BODY=8BITMIME', b'MAIL FROM:<s@remote.example> SIZE=100']
+
+
+def addr_of(raw):
+    """the address between the brackets, without a source route"""
+    a = raw[raw.index(b'<') + 1:raw.index(b'>')]
+    if a.startswith(b'@') and b':' in a:
+        a = a.split(b':', 1)[1]
+    return a
 AUTHTOK = base64.b64encode(b'\0alice\0pw')
 
 
@@ -191,11 +201,10 @@ def client_view(spec, plan, replies):
                 cur = {'sender': None, 'rcpts': [], 'c354': False, 'final': None}
                 res.append(cur)
                 if codes[:1] == ['250']:
-                    a = raw[raw.index(b'<') + 1:raw.index(b'>')]
-                    cur['sender'] = a.lower()
+                    cur['sender'] = addr_of(raw).lower()
             elif up.startswith(b'RCPT TO:') and cur is not None:
                 if codes[:1] == ['250']:
-                    cur['rcpts'].append(raw[raw.index(b'<') + 1:raw.index(b'>')].lower())
+                    cur['rcpts'].append(addr_of(raw).lower())
             elif up == b'DATA' and cur is not None:
                 cur['c354'] = codes[:1] == ['354']
                 if not cur['c354']:
